@@ -139,7 +139,7 @@ class _SocksMachine(object):
             reply = self._data[:2]
             self._data = self._data[2:]
             (version, method) = struct.unpack('BB', reply)
-            if version == 5 and method in [0x00, 0x02]:
+            if version == 5 and method == 0x00:
                 self.version_reply(method)
                 # the request reply may already be buffered (same segment)
                 if self._data:
